@@ -4,6 +4,16 @@ manifest is valid at every commit)."""
 import json, os, sys
 
 CHECKS = {
+ "C02": ("model_checking",
+         "enumeration of multi-host attack worlds (slot x presentation x attacker) x warming histories x cache sizes through the real FetchUnknown / pub.New; provenance judged from text every served object carries",
+         "2 attackers x 10 reference slots x 17 presentations of a forged copy of h1's note or actor x 4 warming histories x cache sizes {128,1} (quick) / {128,1,2} (thorough); per case pub.New by URL (twice), as an embedded value with and without source, and client.FetchUnknown three times, with every reachable creator, recipient, parent, child, actor and target inspected: an item shown with an id on host H only ever shows text served by H, and FetchUnknown never returns an (object, id) pair whose stamp differs from the id's host.",
+         "Env-B (hosts = dial addresses of the verifrt.Dial seam). Embedded values are passed with the source of their enclosing document, as servitor's own callers do. Completeness (no false 'forged') is not judged.",
+         "DESIGN.md §3 C02"),
+ "C09": ("exploration",
+         "enumeration of listing worlds (entry kinds x representations x orders x paging) compared position by position with generator ground truth",
+         "Outbox of an actor with 13 activity kinds x 4 representations (+404, junk), reply collection of a post with 14 reply kinds x 2 representations, all singles, all ordered pairs (inline and split over a remote page) and, in thorough, all ordered triples over the URL-form kinds; 12 author cases directly and as an announced object: every position shows the genuine item or an error item as ground truth says, nothing is dropped or reordered.",
+         "Env-B world; ground truth is written from the statement in checks/c09 (genuine = activity whose actor is the owner by id / reply whose parent resolves to the post's id / authors on the post's host, two missing ids counting as the same place).",
+         "DESIGN.md §3 C09"),
  "C04": ("exploration",
          "full product of URL components with an exact expectation of the bytes written; generic request oracle on every connection for relative references, webfinger handles, hostile content and the UI's :open command",
          "60 784 URL strings (6 schemes x 3 userinfos x 10 hosts incl. one that refuses connections x 14 paths x 8 queries x 3 fragments) through url.Parse + jtp.Get: non-https URLs open no connection; every https URL opens exactly one TLS connection to its host and port and writes exactly request line + Host + Accept with the expected escaping; 18 hostile references x 4 sources through client.FetchUnknown, as Location / embedded reference / id through pub.New and the Tangible methods, 154 webfinger handles, and the :open command typed byte by byte: every connection is TLS with verification on, four CRLF lines, no control bytes, origin-form target without blanks or fragment, Host matching the dial address, constant Accept.",
